@@ -61,7 +61,7 @@ func scenarioFiles() []input {
 var synthWords = []string{"the", "software", "is", "provided", "as", "license", "licence", "copyright", "(c)", "2020",
 	"1.", "a)", "iv.", "3.1.", "b.", "permission", "https://example.org/x", "http://a.b", "non-commercial", "sub-", "-",
 	"--", "warranty", "&amp;", "&lt;x&gt;", "&#169;", "&copy", "R&D", "AT&T", "(the", "\"Software\")", "‘quoted’", "“double”",
-	"e—mail", "co‐operate", "2.0.", "1.2.3", "v2.0", "2006-01-27", "2006-jan-27", "[yyyy]", "©", "§", "·", "*", "//", "#",
+	"e—mail", "co‐operate", "2.0.", "2.0..", "3.1...", "1.2.3", "02110—1301", "v2.0", "2006-01-27", "2006-jan-27", "[yyyy]", "©", "§", "·", "*", "//", "#",
 	";", ">", "|", "%", "whilst", "organisation", "É", "ǅ", "İ", "ſ", "K", "ß", "日本語", "x y", " ", "\u0085",
 	"lesser", "library", "gnu", "general", "public", "version", "apache", "bsd", "Copyright", "COPYRIGHT", "All", "rights", "reserved."}
 
